@@ -1,4 +1,5 @@
-//! abyv-probe: for EVERY value length 0..=2^24 and EVERY key length 0..=2^16 x every pair of
+//! abyv-probe: for EVERY value length 0..=2^24 and EVERY key length 0..=2^16 (plus bands of 273 lengths
+//! around 2^17, 2^20, 2^21 and 2^24) x every pair of
 //! (value offset, next offset) from the offset-width boundary set, ask the crate's own sizing code
 //! (through the layout-probe hook) which slot it chooses, and compare with the independently
 //! computed exact encoded record length. Output: key=value lines on stdout.
@@ -60,7 +61,17 @@ fn main() {
     let val_evals = evals;
     let offs = offsets();
     let mut key_evals: u64 = 0;
-    for kl in 0..=max_key {
+    // every key length up to max_key, then bands around the lengths at which the size field and the
+    // length field of the record grow by a byte (record of 128 KiB: 3-byte size field; key of 2 MiB:
+    // 4-byte length field; record of 16 MiB: 4-byte size field)
+    let mut key_lengths: Vec<usize> = (0..=max_key).collect();
+    for b in [1usize << 17, 1 << 20, 1 << 21, 1 << 24] {
+        if b > max_key {
+            key_lengths.extend(b - 200..=b + 72);
+        }
+    }
+    let n_key_lengths = key_lengths.len();
+    for kl in key_lengths {
         abyssiniandb::filedb::verif::key_layout_sweep(kl, &offs, &mut |vo, nx, size_field, piece_len, slot| {
             key_evals += 1;
             distinct_slots.insert(slot);
@@ -81,7 +92,7 @@ fn main() {
     }
     let _ = vu_len(0);
     println!("value_lengths={}", val_evals);
-    println!("key_lengths={}", max_key + 1);
+    println!("key_lengths={}", n_key_lengths);
     println!("offset_pairs={}", offs.len() * offs.len());
     println!("key_evaluations={}", key_evals);
     println!("distinct_slot_sizes={}", distinct_slots.len());
